@@ -49,6 +49,33 @@ def poses_for(case_objs, rng, n_extra, s=1):
     return out
 
 
+def warm_up(x):
+    """queries that an implementation might memoise (hash, edges, measures, a self-intersection)"""
+    for f in (lambda: hash(x), lambda: repr(x), lambda: x == x, lambda: G.intersection(x, x),
+              lambda: x.length(), lambda: x.area(), lambda: x.volume()):
+        try:
+            f()
+        except Exception:  # noqa: BLE001
+            pass
+
+
+def build_variant(o, pose, num, rng, p=0.2):
+    """the library object for `o` under `pose`; with probability p it is first built displaced by a lattice vector, queried
+    (so that anything memoised is memoised at the wrong place) and then moved IN PLACE into position: an object obtained
+    that way is as good an operand as a freshly constructed one"""
+    if o.get("k") in (None, "None", "Vector") or rng.random() >= p:
+        return build(o, pose, num)
+    from fractions import Fraction as Fr
+    d = (0, 0, 0)
+    while d == (0, 0, 0):
+        d = (rng.randint(-2, 2), rng.randint(-1, 1), rng.randint(-2, 2))
+    shifted = geom.Pose(s=pose.s, k=pose.k, M=pose.M, t=tuple(pose.t[i] - d[i] for i in range(3)), norm=pose.norm)
+    x = build(o, shifted, num)
+    warm_up(x)
+    x.move(geom.Vector(*[float(c) if num != "int" else int(c) for c in d]))
+    return x
+
+
 def num_for(rng, pose, objs):
     return rng.choice(("float", "float", "int"))
 
@@ -75,7 +102,7 @@ def check_intersection(case, rng, n_poses, clause_prefix, forms=("func",)):
            "cls": "%s|%s|%s" % (a["k"], b["k"], exp["k"]), "nontrivial": exp["k"] != "None"}
     for pose in poses_for((a, b, exp), rng, n_poses, s):
         num = num_for(rng, pose, (a, b))
-        la, lb = build(a, pose, num), build(b, pose, num)
+        la, lb = build_variant(a, pose, num, rng), build_variant(b, pose, num, rng)
         for form in forms:
             if form == "func":
                 val, exc = call(G.intersection, la, lb)
